@@ -52,7 +52,7 @@ var (
 		"billion",
 		"trillion",
 		"quadrillion",
-		"quantillion",
+		"quintillion",
 		"sextillion",
 		"septillion",
 		"octillion",
